@@ -6,12 +6,12 @@ from . import sem as S
 # property -> (families quick, families thorough)
 ALLF = ["F1", "F1b", "F2", "F3", "F4", "F5", "F6", "F7", "F8", "F9", "F10", "F13"]
 FAMILIES = {
-    "C01": (["F1", "F1b", "F2", "F3", "F4", "F5", "F6", "F7", "F9", "F10"], ALLF),
-    "C02": (["F1b", "F2", "F3", "F4", "F8", "F9"], ALLF),
-    "C03": (["F1", "F1b", "F2", "F3", "F7", "F8", "F9"], ALLF),
+    "C01": (["F1", "F1b", "F2", "F3", "F4", "F5", "F6", "F7", "F9", "F10", "R"], ALLF + ["F14", "F20", "FC1", "FC2", "R"]),
+    "C02": (["F1b", "F2", "F3", "F4", "F8", "F9"], ALLF + ["R"]),
+    "C03": (["F1", "F1b", "F2", "F3", "F7", "F8", "F9", "R"], ALLF + ["FC2", "R"]),
     "C04": (["F8", "F5", "F6"], ["F8", "F1", "F1b", "F5", "F6", "F7", "F9"]),
     "C09": (["F1", "F5", "F4"], ["F1", "F2", "F4", "F5", "F8", "F9"]),
-    "C13": (["F1", "F3", "F6", "F7", "F13"], ALLF),
+    "C13": (["F1", "F3", "F6", "F7", "F13"], ALLF + ["R"]),
     "C16": (["F10", "F3", "F4"], ["F10", "F1", "F2", "F3", "F4", "F8"]),
     "C12": (["FC1", "FC2", "F6"], ["FC1", "FC2", "F6", "F1", "F13"]),
 }
@@ -162,6 +162,36 @@ def run_sem(prop, tier, v, families=None, opts=None, replay_cases=None, want=("s
         absorb(results)
         vs = [j for j in R["jlines"] if j["kind"] == "vmstat"]
         R["vm_runs"] = sum(j["runs"] for j in vs)
+    if "space" in want:
+        # model checking with the machines' real Next relation: every state of every run of a sample of the
+        # dumped programs is explored, invariants on every state, termination as a liveness property
+        t0 = time.time()
+        nsp = 40 if tier == "quick" else 400
+        total = sum(1 for _ in open(paths["vm"]))
+        every = max(1, total // nsp)
+        spf = paths["vm"] + ".space"
+        picked = []
+        with open(spf, "w") as o:
+            for k, line in enumerate(open(paths["vm"])):
+                if k % every == 0 and len(picked) < nsp:
+                    o.write(line)
+                    picked.append(json.loads(line)["rid"])
+        res = C.tlc("MCVMSpace", "MCVMSpace.cfg", env={"OBS": spf}, workers=8, xmx="10g", timeout=3000, workdir=work, allow_violation=True)
+        inv = res.violated_invariant()
+        R["space_states"] = res.distinct
+        R["states"] += res.distinct
+        R["generated"] += res.generated
+        R["space_programs"] = len(picked)
+        if inv:
+            import re as _re
+            m = _re.search(r"rec = (\d+)", res.text)
+            mh = _re.search(r"hi = (\d+)", res.text)
+            mw = _re.search(r'which = "(\w+)"', res.text)
+            me = _re.search(r'eng = "(\w+)"', res.text)
+            R["space_violation"] = {"what": inv, "rid": picked[int(m.group(1)) - 1] if m else None, "h": int(mh.group(1)) - 1 if mh else None,
+                                    "prog": mw.group(1) if mw else None, "engine": me.group(1) if me else None, "tlc": res.text[-2500:]}
+        C.log("machine state spaces (MCVMSpace): %d programs, %d states in %.1fs%s" % (len(picked), res.distinct, time.time() - t0,
+              (" VIOLATED " + inv) if inv else ""))
     if "trace" in want:
         t0 = time.time()
         tr = paths["tr"]
@@ -254,6 +284,14 @@ def classify(prop, R, v, kinds_sem=(), pairs=(), use_bad=False, use_fails=None):
             what = "run is not a behaviour of the machine: %s of /%s/%s on %s: %s at event %d: event %s, machine %s" % (
                 j["var"], r.get("pats"), r.get("flags"), r["hays"][j["h"]], j["why"], j["at"], j["event"], j["model"])
             v.violation(what, {"pipeline": "sem", "case": S.small_case(r, j["h"]), "kind": "trace", "detail": j})
+    if R.get("space_violation"):
+        sv = R["space_violation"]
+        r = rec(sv["rid"]) if sv["rid"] is not None else {}
+        what = ("the %s machine on the %s program of /%s/%s on %s: %s" % (
+            {"bt": "backtracking", "pv": "Pike"}.get(sv["engine"], "?"), sv["prog"], r.get("pats"), r.get("flags"),
+            r["hays"][sv["h"]] if r and sv["h"] is not None else None,
+            "does not terminate (a configuration repeats)" if sv["what"] == "temporal" else "violates " + sv["what"]))
+        v.violation(what, {"pipeline": "sem", "case": S.small_case(r, sv["h"]) if r else None, "kind": "space", "detail": sv})
     if "traceinv" in kinds_sem and R.get("trace_inv"):
         v.violation("machine invariant %s violated on a validated run" % R["trace_inv"],
                     {"pipeline": "sem", "kind": "traceinv", "invariant": R["trace_inv"], "tlc": R.get("trace_inv_text", "")})
@@ -315,6 +353,7 @@ def coverage(R, samples, rule):
         "states": R["states"], "transitions": R["generated"],
         "traces_validated_against_impl": R.get("traces_validated", 0),
         "trace_states": R.get("trace_states", 0), "machine_runs_on_dumped_bytecode": R.get("vm_runs", 0),
+        "machine_state_space_states": R.get("space_states", 0), "machine_state_space_programs": R.get("space_programs", 0),
         "evaluations": evals, "distinct_nontrivial": nontriv,
         "programs": R["ncases"], "families": R["counts"],
         "rule": rule, "samples": samples, "exhaustive": True,
